@@ -71,6 +71,9 @@ def main(prop, tier, seed):
         if len(rep.samples) < 6 and rec['obligations']:
             rep.samples.append(dict(shape=shape, conf=conf, paths=rec['paths'], generated_code=(rec.get('code') or '')[-600:],
                                     obligations=[f"{o['name']}:{o['status']}" for o in rec['obligations'][:10]]))
+    if prop == 'C09':
+        from props import errpath
+        rep_functions_extra = []
     rep.functions = [f'{p}@{report.src_hash(p)} (templates instantiated by the real make_check_expr / make_func_checker; mode G)' for p in ANCHORS]
     rep.trusted = ['pyvc (VC generator: pyvc/symx.py, pyvc/gencheck.py, pyvc/spec.py)', 'z3 5.1', 'cvc5 1.0.3 (second opinion on unknown)'] + M.ASSUMED_SEMANTICS
     rep.assumptions = ['composition of generated code beyond the enumerated depth/arity is assumed (induction step = node shapes with opaque leaf '
@@ -80,6 +83,8 @@ def main(prop, tier, seed):
                        'no attribute value is beartype\'s private SENTINEL']
     rep.bounded = [dict(kind='per-shape proofs (bounded in the SHAPE only; each obligation is for all objects and all draws)',
                         shapes=nshape, by_kind=by_kind, depth='<=3 (quick) / <=4 (thorough)', seed=seed)]
+    if prop == 'C09':
+        errpath.safe(errpath.add_enumerators, rep, 'C09.errpath')
     rep.extra['explanation'] = ('each obligation is a z3 query over all objects x and all 32-bit draws r on the text captured from the real generator; '
                                 'node shapes = induction step, composed shapes = bounded composition check')
     return rep.finish()
